@@ -194,7 +194,7 @@ MUTANTS += [
     {"name": "c03-reap-only-one-child", "prop": "C03", "checks": ["C03"],
      "edits": [(AR, "                    worker.tmp.close()\n                    self.cfg.child_exit(self, worker)\n        except OSError as e:", "                    worker.tmp.close()\n                    self.cfg.child_exit(self, worker)\n                    break\n        except OSError as e:")]},
     {"name": "c03-boot-error-not-special", "prop": "C03", "checks": ["C03"],
-     "edits": [(AR, "                    if exitcode == self.WORKER_BOOT_ERROR:", "                    if False:")]},
+     "edits": [(AR, "                    if exitcode == self.WORKER_BOOT_ERROR and not self.stopping:", "                    if False:")]},
     {"name": "c03-ttou-below-one", "prop": "C03", "checks": ["C03"],
      "edits": [(AR, "        if self.num_workers <= 1:\n            return", "        if self.num_workers <= 0:\n            return")]},
     {"name": "c03-spawn-only-when-two-short", "prop": "C03", "checks": ["C03"],
@@ -270,7 +270,7 @@ MUTANTS += [
     {"name": "c14-unlink-ignores-upgrade-state", "prop": "C14", "checks": ["C14"],
      "edits": [(AR, "            self.reexec_pid == self.master_pid == 0\n            and not self.systemd", "            not self.systemd")]},
     {"name": "c14-gunicorn-fd-not-passed", "prop": "C14", "checks": ["C14"],
-     "edits": [(AR, "            environ['GUNICORN_FD'] = ','.join(\n                str(lnr.fileno()) for lnr in self.LISTENERS)", "            environ['GUNICORN_FD'] = ''")]},
+     "edits": [(AR, "                environ['GUNICORN_FD'] = ','.join(\n                    str(lnr.fileno()) for lnr in self.LISTENERS)", "                environ['GUNICORN_FD'] = ''")]},
     {"name": "c14-reexec-pid-never-reset", "prop": "C14", "checks": ["C14"],
      "edits": [(AR, "                if self.reexec_pid == wpid:\n                    self.reexec_pid = 0", "                if self.reexec_pid == wpid:\n                    pass")]},
     {"name": "c14-no-pidfile-rename-on-promotion", "prop": "C14", "checks": ["C14"],
